@@ -1,7 +1,557 @@
-//! C27 — not implemented yet.
-use vmon::report::Args;
+//! C27 — repetition / definition levels encode nesting losslessly.
+//!
+//! Parts: (1) run-time exhaustive enumeration of small nested shapes through RepDefBuilder ->
+//! serialize -> RepDefUnraveler; (2) random larger shapes with several batches per page, several
+//! pages per composite unraveler, garbage behind null lists and sliced offsets; (3) control-word
+//! iterator/parser round trip for all (rep bits, def bits) widths; (4) row -> item translation of the
+//! (private) mini-block repetition index and the full-zip path observed through lance-file random
+//! access (`take`) of nested list columns against a direct walk of the nested offsets.
+use crate::fileio;
+use crate::k27::*;
+use crate::prng::{fnv, Rng};
+use arrow_array::{Array, ArrayRef, FixedSizeListArray, Int32Array, LargeListArray, ListArray, RecordBatch, StructArray};
+use arrow_buffer::{BooleanBuffer, NullBuffer, OffsetBuffer, ScalarBuffer};
+use arrow_schema::{DataType, Field, Fields, Schema};
+use lance_encoding::version::LanceFileVersion;
+use serde_json::json;
+use std::collections::HashMap;
+use std::sync::atomic::{AtomicBool, AtomicU64, Ordering};
+use std::sync::Arc;
+use vmon::report::{Args, Report, Tier};
+use vmon::table::{cell_at, Cell};
 
-pub fn run(_args: &Args) -> i32 {
-    eprintln!("HARNESS-ERROR C27 not implemented");
-    2
+fn all_sequences(max_depth: usize) -> Vec<Vec<Kind>> {
+    let ks = [Kind::List, Kind::Fsl, Kind::Struct];
+    let mut out: Vec<Vec<Kind>> = vec![vec![]];
+    let mut frontier: Vec<Vec<Kind>> = vec![vec![]];
+    for _ in 0..max_depth {
+        let mut next = vec![];
+        for s in &frontier {
+            for k in ks {
+                let mut t = s.clone();
+                t.push(k);
+                next.push(t);
+            }
+        }
+        out.extend(next.iter().cloned());
+        frontier = next;
+    }
+    out
+}
+
+fn limits_for(depth: usize, tier: Tier) -> Limits {
+    match (depth, tier) {
+        (0, _) => Limits { max_rows: 6, max_list_len: 0, max_elems: 6, max_dim: 2 },
+        (1, _) => Limits { max_rows: 6, max_list_len: 3, max_elems: 6, max_dim: 2 },
+        (2, _) => Limits { max_rows: 4, max_list_len: 2, max_elems: 4, max_dim: 2 },
+        (_, Tier::Quick) => Limits { max_rows: 3, max_list_len: 2, max_elems: 3, max_dim: 2 },
+        (_, Tier::Thorough) => Limits { max_rows: 4, max_list_len: 2, max_elems: 4, max_dim: 2 },
+    }
+}
+
+/// chooser that fixes the first choice (row count) and delegates the rest to the odometer
+struct FixedRows<'a> {
+    rows: usize,
+    first: bool,
+    inner: &'a mut Odometer,
+}
+impl Chooser for FixedRows<'_> {
+    fn choose(&mut self, arity: usize) -> usize {
+        if self.first {
+            self.first = false;
+            return self.rows.min(arity - 1);
+        }
+        self.inner.choose(arity)
+    }
+}
+
+fn seq_name(k: &[Kind]) -> String {
+    let mut s: String = k.iter().map(|x| x.ch()).collect();
+    s.push('p');
+    s
+}
+
+fn selftest(args: &Args) -> i32 {
+    let mut fired = 0;
+    let mut total = 0;
+    for kinds in all_sequences(2) {
+        let lim = Limits { max_rows: 4, max_list_len: 2, max_elems: 5, max_dim: 2 };
+        for i in 0..10u64 {
+            let mut rng = Rng::for_case(args.seed, i);
+            let s = build_shape(&kinds, &lim, &mut RandomChooser(&mut rng));
+            let clean = roundtrip(std::slice::from_ref(&s), &[1], None, false);
+            let Ok(obs) = clean else { continue };
+            if obs.rejected.is_some() || !obs.has_def {
+                continue;
+            }
+            total += 1;
+            if roundtrip(std::slice::from_ref(&s), &[1], None, true).is_err() {
+                fired += 1;
+            }
+        }
+    }
+    let mut cw = 0;
+    let mut cwt = 0;
+    for (mr, md) in [(1u16, 1u16), (3, 0), (0, 7), (200, 300), (1, 4000)] {
+        let mut rng = Rng::for_case(args.seed, 99);
+        cwt += 1;
+        if control_words(&mut rng, mr, md, 50, true).is_err() {
+            cw += 1;
+        }
+    }
+    println!("SELFTEST C27 repdef corrupted-level cases detected {fired} of {total}; control words {cw} of {cwt}");
+    // a flipped definition level can be absorbed when it lands on an element hidden by an outer null
+    if total > 20 && fired * 10 >= total * 8 && cw == cwt { 0 } else { 2 }
+}
+
+pub fn run(args: &Args) -> i32 {
+    if args.extra.contains_key("selftest") {
+        return selftest(args);
+    }
+    let report = Report::new(
+        args,
+        "exploration",
+        "(1) ALL nested shapes over {list, fixed-size-list, struct}^depth, depth<=3, with a validity choice at every level and leaf (rows<=6/6/4/3, list length<=3/2, <=6/4/3 elements per level), enumerated at run time through RepDefBuilder->serialize->RepDefUnraveler and compared on logical structure; (2) random larger shapes (depth<=5, up to 200 rows, several batches per page, several pages per composite unraveler, garbage behind null lists, sliced offsets, i32/i64 offsets); (3) control words for every (rep bits, def bits) in 0..=15 x 0..=15; (4) lance-file 2.1 random access (take) of nested list columns in mini-block and full-zip layout vs a direct walk. Non-trivial iff levels were produced (some null / list) and rows>0; distinct by (layer kinds, def meaning, logical rows).",
+        (60, 900),
+    )
+    .with_min_nontrivial(1000);
+    report.assume("garbage behind null lists is removed from the child arrays by the caller when add_offsets returns true (what ListStructuralEncoder does); struct nulls are pushed down into the children (what StructStructuralEncoder does)");
+    report.assume("fixed-size-list layers combined with list layers are rejected by the unraveler (todo!(): 'Not yet supported FSL<...List<...>>') and counted as rejected inputs; add_fsl is not used by the 2.1 encoders at this commit");
+
+    let threads = crate::quiet::threads();
+
+    // ---------------- (1) exhaustive small shapes ----------------
+    let seqs = all_sequences(3);
+    let mut units = vec![];
+    for (si, k) in seqs.iter().enumerate() {
+        let lim = limits_for(k.len(), args.tier);
+        for rows in 0..=lim.max_rows {
+            units.push((si, rows));
+        }
+    }
+    // big units first
+    units.sort_by_key(|(si, rows)| std::cmp::Reverse(seqs[*si].len() * 100 + rows));
+    let next = AtomicU64::new(0);
+    let complete = AtomicBool::new(true);
+    let per_seq: std::sync::Mutex<HashMap<String, u64>> = Default::default();
+    let exhaustive_budget = report.budget_s() as f64 * 0.55;
+    std::thread::scope(|s| {
+        for _ in 0..threads {
+            s.spawn(|| loop {
+                let u = next.fetch_add(1, Ordering::Relaxed) as usize;
+                if u >= units.len() {
+                    break;
+                }
+                let (si, rows) = units[u];
+                let kinds = &seqs[si];
+                let lim = limits_for(kinds.len(), args.tier);
+                let name = seq_name(kinds);
+                let mut od = Odometer::default();
+                let mut n = 0u64;
+                let mut nontriv = 0u64;
+                let mut rejected = 0u64;
+                let mut sigs = Vec::with_capacity(1024);
+                loop {
+                    od.start();
+                    let shape = {
+                        let mut ch = FixedRows { rows, first: true, inner: &mut od };
+                        build_shape(kinds, &lim, &mut ch)
+                    };
+                    match roundtrip(std::slice::from_ref(&shape), &[1], None, false) {
+                        Ok(obs) => {
+                            n += 1;
+                            if obs.rejected.is_some() {
+                                rejected += 1;
+                            } else if nontrivial(std::slice::from_ref(&shape), &obs) {
+                                nontriv += 1;
+                                sigs.push(shape_sig(&shape, &obs));
+                                if n == 77 && report.want_sample() {
+                                    report.sample(json!({"kinds": name, "rows": obs.expected, "def_meaning": obs.meaning, "levels": obs.levels}));
+                                }
+                            }
+                        }
+                        Err(f) => {
+                            n += 1;
+                            report.violation(&f.sig, &f.what, json!({"engine":"exhaustive","kinds":name,"rows":rows,"choices": od.digits.iter().map(|d| d.0).collect::<Vec<_>>(),"detail":f.detail}));
+                        }
+                    }
+                    if sigs.len() >= 1024 {
+                        for s in sigs.drain(..) {
+                            report.nontrivial(s);
+                        }
+                    }
+                    if !od.advance() {
+                        break;
+                    }
+                    if n % 4096 == 0 && report.elapsed_s() > exhaustive_budget {
+                        complete.store(false, Ordering::Relaxed);
+                        break;
+                    }
+                }
+                for s in sigs.drain(..) {
+                    report.nontrivial(s);
+                }
+                report.cases(n);
+                report.count("exhaustive_shapes", n);
+                report.count("exhaustive_shapes_nontrivial", nontriv);
+                report.count("exhaustive_shapes_rejected_fsl_with_list", rejected);
+                for _ in 0..rejected {
+                    report.rejected();
+                }
+                *per_seq.lock().unwrap().entry(name).or_insert(0) += n;
+            });
+        }
+    });
+    report.exhaustive(complete.load(Ordering::Relaxed));
+    report.set("exhaustive_subspace", json!("all shapes over {list,fsl,struct}^d, d<=3, within the row / list-length / element limits of the rule, every validity assignment"));
+    report.set("exhaustive_shapes_per_layer_sequence", json!(*per_seq.lock().unwrap()));
+
+    // ---------------- (2) random larger shapes ----------------
+    let n_random: u64 = args.tier.pick(30_000, 1_500_000);
+    let random_deadline = report.budget_s() as f64 * 0.8;
+    let next = AtomicU64::new(0);
+    std::thread::scope(|s| {
+        for _ in 0..threads {
+            s.spawn(|| loop {
+                let i = next.fetch_add(1, Ordering::Relaxed);
+                if i >= n_random || report.elapsed_s() > random_deadline {
+                    break;
+                }
+                let mut rng = Rng::for_case(args.seed, (5u64 << 40) + i);
+                let depth = rng.urange(0, 5);
+                let with_fsl = rng.chance(1, 5);
+                let kinds: Vec<Kind> = (0..depth)
+                    .map(|_| if with_fsl { *rng.pick(&[Kind::Fsl, Kind::Struct]) } else { *rng.pick(&[Kind::List, Kind::List, Kind::Struct]) })
+                    .collect();
+                let lim = Limits { max_rows: *rng.pick(&[3usize, 10, 40, 200]), max_list_len: *rng.pick(&[1usize, 3, 6]), max_elems: 2000, max_dim: 3 };
+                let nb = rng.urange(1, 4);
+                let mut shapes: Vec<Shape> = vec![];
+                for _ in 0..nb {
+                    let mut s = build_shape(&kinds, &lim, &mut RandomChooser(&mut rng));
+                    // all batches must agree on FSL dimensions
+                    if let Some(first) = shapes.first() {
+                        if first.layers.iter().zip(s.layers.iter()).any(|(a, b)| a.kind == Kind::Fsl && a.dim != b.dim) {
+                            s = first.clone();
+                        }
+                    }
+                    shapes.push(s);
+                }
+                // group batches into pages
+                let mut pages = vec![];
+                let mut left = nb;
+                while left > 0 {
+                    let p = rng.urange(1, left);
+                    pages.push(p);
+                    left -= p;
+                }
+                let mut grng = Rng::for_case(args.seed, (6u64 << 40) + i);
+                let use_garbage = rng.bool();
+                match roundtrip(&shapes, &pages, if use_garbage { Some(&mut grng) } else { None }, false) {
+                    Ok(obs) => {
+                        report.count("random_shapes", 1);
+                        if obs.rejected.is_some() {
+                            report.rejected();
+                            report.case(None);
+                        } else if nontrivial(&shapes, &obs) {
+                            report.case(Some(fnv(format!("{}|{}|{}", seq_name(&kinds), obs.meaning, obs.expected).as_bytes())));
+                            report.count("random_levels_checked", obs.levels as u64);
+                            if pages.len() > 1 {
+                                report.count("random_multi_page_composites", 1);
+                            }
+                            if use_garbage {
+                                report.count("random_with_garbage_or_sliced_offsets", 1);
+                            }
+                        } else {
+                            report.case(None);
+                        }
+                    }
+                    Err(f) => {
+                        report.case(None);
+                        report.violation(&f.sig, &f.what, json!({"engine":"random","seed":args.seed,"case":i,"kinds":seq_name(&kinds),"batches":nb,"pages":pages,"garbage":use_garbage,"detail":f.detail}));
+                    }
+                }
+            });
+        }
+    });
+
+    // ---------------- (3) control words ----------------
+    {
+        let mut combos = 0u64;
+        let mut rng = Rng::for_case(args.seed, 7u64 << 40);
+        let mut end_panics = 0u64;
+        for br in 0..=15u32 {
+            for bd in 0..=15u32 {
+                let reps: Vec<u16> = if br == 0 { vec![0] } else { vec![1u16 << (br - 1), ((1u32 << br) - 1) as u16] };
+                let defs: Vec<u16> = if bd == 0 { vec![0] } else { vec![1u16 << (bd - 1), ((1u32 << bd) - 1) as u16] };
+                for mr in &reps {
+                    for md in &defs {
+                        for n in [0usize, 1, 2, 3, 257] {
+                            match control_words(&mut rng, *mr, *md, n, false) {
+                                Ok((words, bits_rep, bits_def)) => {
+                                    report.count("control_words_checked", words as u64);
+                                    let nt = n > 1 && (br > 0 || bd > 0);
+                                    report.case(if nt { Some(fnv(format!("cw|{br}|{bd}|{mr}|{md}|{n}").as_bytes())) } else { None });
+                                    if n == 257 && (bits_rep as u32 != br && bd == 0 || bits_def as u32 != bd && br == 0) {
+                                        report.count("control_word_width_differs_from_minimum", 1);
+                                    }
+                                }
+                                Err(f) => {
+                                    report.case(None);
+                                    report.violation(&f.sig, &f.what, json!({"engine":"control_words","max_rep":mr,"max_def":md,"n":n,"detail":f.detail}));
+                                }
+                            }
+                        }
+                    }
+                }
+                combos += 1;
+                // diagnostic (not part of the property): behaviour after the last word
+                if br + bd > 0 {
+                    let mr = if br == 0 { 0 } else { 1u16 << (br - 1) };
+                    let md = if bd == 0 { 0 } else { 1u16 << (bd - 1) };
+                    let rep = vec![mr; 2];
+                    let def = vec![md; 2];
+                    let r = std::panic::catch_unwind(std::panic::AssertUnwindSafe(|| {
+                        let mut it = lance_encoding::repdef::build_control_word_iterator(if br > 0 { Some(&rep) } else { None }, mr, if bd > 0 { Some(&def) } else { None }, md, 0, 2);
+                        let mut buf = vec![];
+                        it.append_next(&mut buf);
+                        it.append_next(&mut buf);
+                        it.append_next(&mut buf).is_none()
+                    }));
+                    if r.is_err() {
+                        end_panics += 1;
+                    }
+                }
+            }
+        }
+        report.set("control_word_width_combinations", json!(combos));
+        report.set("diagnostic_control_word_iterators_panicking_instead_of_none_at_end", json!(end_panics));
+    }
+
+    // ---------------- (4) row -> item translation through lance-file random access ----------------
+    let n_files: u64 = args.tier.pick(160, 6000);
+    let next = AtomicU64::new(0);
+    std::thread::scope(|s| {
+        for _ in 0..threads {
+            s.spawn(|| {
+                let rt = fileio::runtime();
+                loop {
+                    let i = next.fetch_add(1, Ordering::Relaxed);
+                    if i >= n_files || !report.time_left() {
+                        break;
+                    }
+                    file_case(&report, &rt, args.seed, i);
+                }
+            });
+        }
+    });
+    report.finish()
+}
+
+// ---------------------------------------------------------------------------------------------
+// Shape -> Arrow
+// ---------------------------------------------------------------------------------------------
+
+fn nb(v: &Option<Vec<bool>>) -> Option<NullBuffer> {
+    v.as_ref().map(|v| NullBuffer::new(BooleanBuffer::from(v.clone())))
+}
+
+/// Builds an Arrow array of the shape (lists / structs only; leaf Int32 or FSL<Int32>) with unique leaf
+/// values. `garbage`: null lists keep non-empty ranges of (garbage) children.
+fn shape_to_arrow(s: &Shape, leaf_fsl: Option<i32>, garbage: &mut Option<&mut Rng>, leaf_meta: &HashMap<String, String>) -> (ArrayRef, Field) {
+    // leaf
+    let width = leaf_fsl.unwrap_or(1) as usize;
+    let n = s.leaf_n;
+    let vals = Int32Array::from((0..(n * width) as i32).map(|x| x * 3 + 1).collect::<Vec<_>>());
+    let (mut arr, mut field): (ArrayRef, Field) = if let Some(d) = leaf_fsl {
+        let f = Arc::new(Field::new("item", DataType::Int32, true));
+        let a = FixedSizeListArray::new(f.clone(), d, Arc::new(vals), nb(&s.leaf_validity));
+        (Arc::new(a), Field::new("v", DataType::FixedSizeList(f, d), true).with_metadata(leaf_meta.clone()))
+    } else {
+        let a = Int32Array::new(vals.values().clone(), nb(&s.leaf_validity));
+        (Arc::new(a), Field::new("v", DataType::Int32, true).with_metadata(leaf_meta.clone()))
+    };
+    for l in s.layers.iter().rev() {
+        match l.kind {
+            Kind::Struct => {
+                let fields: Fields = vec![field.clone()].into();
+                let a = StructArray::new(fields.clone(), vec![arr], nb(&l.validity));
+                arr = Arc::new(a);
+                field = Field::new("s", DataType::Struct(fields), true);
+            }
+            Kind::List => {
+                // physical layout: optionally keep garbage children behind null lists
+                let mut lens: Vec<usize> = l.lens.clone();
+                let mut child = arr.clone();
+                if let (Some(r), Some(v)) = (garbage.as_deref_mut(), &l.validity) {
+                    if child.len() > 0 {
+                        // rebuild the child with extra garbage rows interleaved: take() with repeated indices
+                        let mut idx: Vec<u32> = vec![];
+                        let mut pos = 0u32;
+                        for (i, valid) in v.iter().enumerate() {
+                            if !valid && r.chance(1, 2) {
+                                let g = r.urange(1, 3);
+                                for _ in 0..g {
+                                    idx.push(r.usize_below(child.len()) as u32);
+                                }
+                                lens[i] = g;
+                            } else {
+                                for _ in 0..l.lens[i] {
+                                    idx.push(pos);
+                                    pos += 1;
+                                }
+                            }
+                        }
+                        child = arrow_select::take::take(child.as_ref(), &arrow_array::UInt32Array::from(idx), None).unwrap();
+                    }
+                }
+                let mut offs = vec![0i64];
+                for x in &lens {
+                    offs.push(offs.last().unwrap() + *x as i64);
+                }
+                let f = Arc::new(field.clone().with_name("item"));
+                if l.large {
+                    let a = LargeListArray::new(f.clone(), OffsetBuffer::new(ScalarBuffer::from(offs)), child, nb(&l.validity));
+                    arr = Arc::new(a);
+                    field = Field::new("l", DataType::LargeList(f), true);
+                } else {
+                    let a = ListArray::new(f.clone(), OffsetBuffer::new(ScalarBuffer::from(offs.iter().map(|x| *x as i32).collect::<Vec<_>>())), child, nb(&l.validity));
+                    arr = Arc::new(a);
+                    field = Field::new("l", DataType::List(f), true);
+                }
+            }
+            Kind::Fsl => unreachable!(),
+        }
+    }
+    (arr, field)
+}
+
+fn cells(a: &dyn Array) -> Vec<Cell> {
+    (0..a.len()).map(|i| cell_at(a, i)).collect()
+}
+
+fn file_case(report: &Report, rt: &tokio::runtime::Runtime, seed: u64, i: u64) {
+    let mut rng = Rng::for_case(seed, (8u64 << 40) + i);
+    let depth = rng.urange(1, 3);
+    let mut kinds: Vec<Kind> = (0..depth).map(|_| *rng.pick(&[Kind::List, Kind::List, Kind::Struct])).collect();
+    if !kinds.contains(&Kind::List) {
+        kinds[0] = Kind::List;
+    }
+    let structural = *rng.pick(&["miniblock", "fullzip", "default"]);
+    let leaf_fsl = if rng.chance(1, 4) { Some(rng.range(1, 4) as i32) } else { None };
+    let lim = Limits { max_rows: *rng.pick(&[5usize, 60, 700, 3000]), max_list_len: *rng.pick(&[1usize, 3, 8, 40]), max_elems: 60_000, max_dim: 1 };
+    let nbatches = rng.urange(1, 3);
+    let mut meta = HashMap::new();
+    if structural != "default" {
+        meta.insert("lance-encoding:structural-encoding".to_string(), structural.to_string());
+    }
+    let use_garbage = rng.chance(1, 3);
+    let mut grng = Rng::for_case(seed, (9u64 << 40) + i);
+    let mut batches = vec![];
+    let mut schema = None;
+    let mut expected: Vec<Cell> = vec![];
+    let mut any_special = false;
+    for _ in 0..nbatches {
+        let s = build_shape(&kinds, &lim, &mut RandomChooser(&mut rng));
+        if s.layers[0].n == 0 {
+            continue;
+        }
+        let mut g = if use_garbage { Some(&mut grng) } else { None };
+        let (arr, field) = shape_to_arrow(&s, leaf_fsl, &mut g, &meta);
+        let field = field.with_name("col");
+        let sc = schema.get_or_insert_with(|| Arc::new(Schema::new(vec![field.clone()]))).clone();
+        expected.extend(cells(arr.as_ref()));
+        any_special |= s.layers.iter().any(|l| l.kind == Kind::List && (l.validity.as_ref().map(|v| v.iter().any(|x| !x)).unwrap_or(false) || l.lens.iter().any(|x| *x == 0)));
+        match RecordBatch::try_new(sc, vec![arr]) {
+            Ok(b) => batches.push(b),
+            Err(e) => {
+                report.harness_error(&format!("C27 file case {i}: cannot build batch: {e}"));
+                return;
+            }
+        }
+    }
+    let Some(schema) = schema else {
+        report.case(None);
+        return;
+    };
+    let nrows = expected.len();
+    let max_page = if rng.chance(1, 3) { Some(*rng.pick(&[4096u64, 65536])) } else { None };
+    let kinds_s = seq_name(&kinds);
+    let ctx = json!({"engine":"file","seed":seed,"case":i,"kinds":kinds_s,"structural":structural,"leaf_fsl":leaf_fsl,"rows":nrows,"garbage":use_garbage,"max_page_bytes":max_page});
+    let res: Result<(Vec<Vec<String>>, Vec<(String, Vec<u32>, Vec<Cell>)>), String> = crate::quiet::catch(|| rt.block_on(async {
+        let f = fileio::write_file(&batches, schema.clone(), LanceFileVersion::V2_1, max_page, &format!("c27-{i}")).await?;
+        let r = fileio::open(&f).await?;
+        let enc = fileio::page_encodings(&r);
+        let mut reads = vec![];
+        // full scan
+        let all = fileio::read_all(&r, *rng.pick(&[7u32, 100, 1024])).await?;
+        let got: Vec<Cell> = all.iter().flat_map(|b| cells(b.column(0).as_ref())).collect();
+        reads.push(("scan".to_string(), (0..nrows as u32).collect::<Vec<_>>(), got));
+        // random takes
+        for t in 0..4 {
+            let k = match t {
+                0 => 1,
+                1 => rng.urange(1, nrows.min(5)),
+                2 => rng.urange(1, nrows.min(64)),
+                _ => rng.urange(1, nrows),
+            };
+            let mut idx: Vec<u32> = rng.sample_indices(nrows, k).into_iter().map(|x| x as u32).collect();
+            idx.sort();
+            let out = fileio::take(&r, &idx, *rng.pick(&[3u32, 64, 4096])).await?;
+            let got: Vec<Cell> = out.iter().flat_map(|b| cells(b.column(0).as_ref())).collect();
+            reads.push((format!("take{t}"), idx, got));
+        }
+        Ok((enc, reads))
+    }))
+    .unwrap_or_else(|(m, l)| {
+        let (m, l) = crate::quiet::take_repo_panic().unwrap_or((m, l));
+        Err(format!("PANIC at {l}: {m}"))
+    });
+    match res {
+        Err(e) => {
+            // a failure to write/read an accepted nested array is a refutation of "reproduces the same structure"
+            report.case(None);
+            let cls = if let Some(p) = e.find("PANIC at ") { let l = &e[p + 9..]; format!("panic-{}", l.split(':').take(2).collect::<Vec<_>>().join(":").rsplit('/').next().unwrap_or("").to_string()) } else { format!("{kinds_s}-{structural}") };
+            report.violation(&format!("file-error-{cls}"), "lance-file write / read of a nested list column failed", {
+                let mut c = ctx.clone();
+                c["error"] = json!(e);
+                c
+            });
+        }
+        Ok((enc, reads)) => {
+            let layout = if enc.iter().flatten().any(|e| e.contains("MiniBlockLayout")) { "miniblock" } else if enc.iter().flatten().any(|e| e.contains("FullZipLayout")) { "fullzip" } else { "other" };
+            report.count(&format!("file_pages_layout_{layout}"), 1);
+            let mut ok = true;
+            for (what, idx, got) in reads {
+                let want: Vec<&Cell> = idx.iter().map(|x| &expected[*x as usize]).collect();
+                let same = got.len() == want.len() && got.iter().zip(want.iter()).all(|(a, b)| a == *b);
+                report.count("file_rows_compared", idx.len() as u64);
+                if !same {
+                    ok = false;
+                    let pos = got.iter().zip(want.iter()).position(|(a, b)| a != *b).unwrap_or(got.len().min(want.len()));
+                    let cls = if got.len() != want.len() { "row-count" } else { "row-content" };
+                    let kind = if what == "scan" { "scan" } else { "take" };
+                    let mut c = ctx.clone();
+                    c["read"] = json!(what);
+                    c["layout"] = json!(layout);
+                    c["indices_head"] = json!(idx.iter().take(20).collect::<Vec<_>>());
+                    c["first_bad_position"] = json!(pos);
+                    c["requested_row"] = json!(idx.get(pos));
+                    c["expected"] = json!(want.get(pos).map(|c| c.render()));
+                    c["got"] = json!(got.get(pos).map(|c| c.render()));
+                    c["n_expected"] = json!(want.len());
+                    c["n_got"] = json!(got.len());
+                    report.violation(&format!("file-{kind}-{cls}-{layout}"), "random access / scan of a nested list column returned other items than the requested rows hold", c);
+                    break;
+                }
+            }
+            if ok {
+                report.count("file_round_trips", 1);
+                if report.want_sample() && i % 17 == 3 {
+                    report.sample(json!({"file_case": ctx, "layout": layout}));
+                }
+            }
+            let nt = nrows > 1;
+            report.case(if nt { Some(fnv(format!("file|{kinds_s}|{layout}|{leaf_fsl:?}|{}|{any_special}|{use_garbage}|{}", (nrows as f64).log2() as u32, max_page.is_some()).as_bytes())) } else { None });
+        }
+    }
 }
